@@ -1,0 +1,8 @@
+//go:build verif
+
+package misc
+
+// Verification hooks (build tag "verif"): the length-generic mnemonic codec.
+
+func VerifBinToMnemonic(input []uint8) string    { return binToMnemonic(input) }
+func VerifMnemonicToBin(mnemonic string) []uint8 { return mnemonicToBin(mnemonic) }
